@@ -6,6 +6,8 @@ use super::scenario::*;
 pub struct Session {
     pub steps: Vec<Step>,
     pub next_id: i32,
+    /// request ids are `next_id`, `next_id + stride`, ... (JSON-RPC ids are arbitrary integers)
+    pub stride: i32,
     pub replica: Replica,
 }
 
@@ -14,14 +16,22 @@ impl Session {
         Self {
             steps: vec![],
             next_id: 1,
+            stride: 1,
             replica: Replica::default(),
         }
     }
 
     fn id(&mut self) -> i32 {
         let id = self.next_id;
-        self.next_id += 1;
+        self.next_id = self.next_id.wrapping_add(self.stride);
         id
+    }
+
+    /// Other request ids than 1, 2, 3, ...: zero, negative, large, descending. Must be called before
+    /// the first request; `count` ids must fit.
+    pub fn id_scheme(&mut self, first: i32, stride: i32) {
+        self.next_id = first;
+        self.stride = stride;
     }
 
     pub fn push(&mut self, op: ClientOp) -> &mut Step {
